@@ -1,25 +1,43 @@
 package main
 
 import (
+	"encoding/json"
 	"fmt"
 	"os"
+	"os/exec"
 
-	"deps.dev/util/semver"
-	"verif/harness/dom"
+	"verif/harness/ptree"
 )
 
 func main() {
-	sys, _ := dom.SysByName(os.Args[1])
-	for _, a := range os.Args[2:] {
-		v, err := sys.Parse(a)
+	for _, v := range []string{"v3", "v3alpha"} {
+		src, _ := os.ReadFile("/repo/api/" + v + "/api.proto")
+		t, err := ptree.ParseProto(string(src))
 		if err != nil {
-			fmt.Printf("%q: err %v\n", a, err)
+			fmt.Println(v, "parse error:", err)
 			continue
 		}
-		fmt.Printf("%q: canon=%q pre=%v\n", a, v.Canon(true), v.IsPrerelease())
-		for _, b := range os.Args[2:] {
-			fmt.Printf("   cmp(%s,%s)=%d\n", a, b, sys.Compare(a, b))
+		out, _ := exec.Command("/verif/.cache/bin/dump" + v).Output()
+		var e ptree.Tree
+		json.Unmarshal(out, &e)
+		a, b := t.Flatten(), e.Flatten()
+		n := 0
+		for k, x := range a {
+			if b[k] != x {
+				n++
+				if n < 10 {
+					fmt.Printf("%s: proto %q embedded %q\n", k, x, b[k])
+				}
+			}
 		}
+		for k, x := range b {
+			if _, ok := a[k]; !ok {
+				n++
+				if n < 10 {
+					fmt.Printf("%s: only embedded %q\n", k, x)
+				}
+			}
+		}
+		fmt.Println(v, len(a), len(b), "differences:", n)
 	}
-	_ = semver.NPM
 }
